@@ -247,8 +247,11 @@ static Token *copy_line(Token **rest, Token *tok) {
   Token head = {};
   Token *cur = &head;
 
-  for (; !tok->at_bol; tok = tok->next)
+  for (; !tok->at_bol; tok = tok->next) {
     cur = cur->next = copy_token(tok);
+    cur->line_delta = tok->file->line_delta;
+    cur->filename = tok->file->display_name;
+  }
 
   cur->next = new_eof(tok);
   *rest = tok;
@@ -867,8 +870,12 @@ static Token *preprocess2(Token *tok) {
 
     // Pass through if it is not a "#".
     if (!is_hash(tok)) {
-      tok->line_delta = tok->file->line_delta;
-      tok->filename = tok->file->display_name;
+      // A token that comes out of a macro expansion keeps the #line
+      // state in force where it was written.
+      if (!tok->origin) {
+        tok->line_delta = tok->file->line_delta;
+        tok->filename = tok->file->display_name;
+      }
       cur = cur->next = tok;
       tok = tok->next;
       continue;
